@@ -24,6 +24,7 @@ found_by={"C02-Zeta-tail-precision":"C02 law test (Zeta<f64> s<=1.2, Zeta<f32> s
 "C01-Beta-BB-cancellation":"C01 random near-switch cell under VERIF_SEED=32 / chacha (second multi-seed robustness run)",
 "C08-alias-subnormal-weight-sum":"a round-6 sub-agent (writing C08 changes) — NOT by the checks, whose float alphabets stopped at MIN_POSITIVE; subnormal vectors were added and re-find it on the pre-fix source",
 "C05-Zipf-max-n-s-zero":"a round-6 sub-agent (writing C05 changes) — NOT by the checks: the Zipf cross product of C05 had MAX/4 and inf but not MAX itself (added; re-finds it on the pre-fix source). A regression of fix d69b147.",
+"C07-Triangular-narrow-range-point-mass":"C07 quick, far power-of-two scales 2^-(9..30) on the Triangular base cells, first fresh-restore run (VERIF_SEED=1): 8 signatures. The defect was seeded change R7-C07-2 left in /repo by an interrupted evaluation (§0)",
 "C02-Binomial-BINV-tiny-p":"C02 random cell under VERIF_SEED=11 / xoshiro (multi-seed robustness run)"}
 txt="Fixed (one `fix:` commit each):\n\n| property | commit | what failed | found by |\n|---|---|---|---|\n"
 for f in kf:
